@@ -152,11 +152,16 @@ def findCommonAncestor : List Str → Option Str
     if !isAbs f then none
     else (commonAncestorFrom (splitSlash (dir f)) fs).map joinSlash
 
+/-- `RelativePackage` refuses a package path that leaves the Thrift root: ".." itself or
+anything starting with "../" (a `filepath.Rel` result has its ".." elements in front). -/
+def escapesRoot (pkg : Str) : Bool := pkg == dotdot || hasPrefix (dotdot ++ ['/']) pkg
+
 /-- gen/generate.go `generateModule`: where the code for a Thrift file goes,
-relative to the output directory: `<rel root (file minus ".thrift")>/<base>.go`. -/
+relative to the output directory: `<rel root (file minus ".thrift")>/<base>.go`; an error if
+that package path is outside the root. -/
 def modulePath (root file : Str) : Option Str :=
   match rel root (trimSuffix file thriftSuffix) with
   | none => none
-  | some pkg => some (join2 pkg (base pkg ++ goSuffix))
+  | some pkg => if escapesRoot pkg then none else some (join2 pkg (base pkg ++ goSuffix))
 
 end ThriftVerif.Proto
